@@ -8,7 +8,7 @@ import logging, xml.dom
 CLASS = {"bs": "\\", "dq": '"', "sq": "'", "sl": "/", "st": "*", "mi": "-", "pl": "+", "dot": ".", "pc": "%", "ha": "#", "at": "@", "ex": "!",
          "lt": "<", "gt": ">", "eq": "=", "ti": "~", "pi": "|", "ca": "^", "do": "$", "qm": "?", "us": "_", "lp": "(", "rp": ")", "lb": "{",
          "rb": "}", "ls": "[", "rs": "]", "sc": ";", "co": ":", "cm": ",", "dig": "1", "hexl": "a", "let": "g", "u": "u", "r": "r", "l": "l",
-         "sp": " ", "tab": "\t", "lf": "\n", "cr": "\r", "ff": "\f", "na": "\u00e9", "ctl": "\x01", "d6": "6", "d1": "1", "g": "g", "a": "a"}
+         "sp": " ", "tab": "\t", "lf": "\n", "cr": "\r", "ff": "\f", "na": "\u00e9", "ctl": "\x01", "d6": "6", "d1": "1", "g": "g", "a": "a", "nbsp": "\u00a0", "vt": "\x0b"}
 SEP = {"none": "", "sp": " ", "tab": "\t", "lf": "\n", "crlf": "\r\n", "ff": "\f", "comment": "/**/"}
 
 
